@@ -31,7 +31,7 @@ def gen_cases(tier, seed):
                       "page_version": [1, 1, 2, [1, 2]][int(rng.integers(0, 4))], "use_dict": bool(rng.integers(0, 2)),
                       "_": 0,
                       "codec": ["UNCOMPRESSED", "SNAPPY", "GZIP", "ZSTD"][int(rng.integers(0, 4))],
-                      "long_rows": bool(i % 7 == 0)})
+                      "long_rows": bool(i % 7 == 0), "stats_nulls": bool(i % 4 == 1)})
     # dictionary fallback inside a nested chunk: the first page(s) dictionary-encoded, the rest PLAIN (what parquet-mr / parquet-cpp do
     # once a dictionary grows too large); v1 pages, rows may continue across the change of encoding
     for i in range(90 if tier == "quick" else 1500):
@@ -133,6 +133,11 @@ def make(case):
           "page_version": case["page_version"], "def_plan": "mixed", "rep_plan": "mixed", "idx_plan": "mixed"}
     if case.get("dict_fallback_page") is not None:
         cs["dict_fallback_page"] = case["dict_fallback_page"]
+    if case.get("stats_nulls"):
+        # chunk statistics the way parquet-mr writes them for nested leaves: null_count = level entries that carry no value
+        cs["write_stats"] = True
+        cs["nested_null_count"] = True
+        cs["write_minmax"] = False
     if case["kind"] == "LIST":
         cs["nested"] = {"kind": "LIST", "top_optional": case["top_optional"], "elem_optional": case["elem_optional"], "names": case.get("names")}
     else:
@@ -245,6 +250,10 @@ def run_case(case):
             counters["nested_dictionary_fallback_files"] = 1
         if case.get("names"):
             counters["files_with_other_group_names"] = 1
+        if case.get("stats_nulls"):
+            counters["files_with_null_counts_on_nested_chunks"] = 1
+            if case.get("max_len") == 0:
+                counters["files_of_only_empty_or_missing_rows_with_null_counts"] = 1
         case = dict(subs[0], id=case["id"], row_groups=case["row_groups"], codec=case["codec"], n_nested_columns=len(subs))
         with open(path, "wb") as f:
             f.write(data)
@@ -383,4 +392,5 @@ def _feat(case):
 
 
 def required(tier):
-    return {"rows_compared": 3000, "assemble_calls_checked": 500, "multi_nested_column_files": 20, "nested_dictionary_fallback_files": 40, "two_file_datasets_with_shifted_chunk_positions": 20, "files_with_other_group_names": 30}
+    return {"rows_compared": 3000, "assemble_calls_checked": 500, "multi_nested_column_files": 20, "nested_dictionary_fallback_files": 40, "two_file_datasets_with_shifted_chunk_positions": 20, "files_with_other_group_names": 30, "files_with_null_counts_on_nested_chunks": 60,
+            "files_of_only_empty_or_missing_rows_with_null_counts": 8}
